@@ -50,8 +50,8 @@
 From AV Require Import Base.Bytes Base.Outcome Hash.HashModel Tree.Heap Tree.Ops Tree.Script Tree.Serialize Tree.Inv.
 From AV Require Import Tree.Files Tree.FilesProofsProj Tree.FilesProofsFrame Tree.FilesProofsAdd Tree.FilesProofsRemove Tree.FilesProofsExact Tree.FilesProofsLast Tree.FilesProofsMove
   Tree.FilesProofsInv Tree.FilesProofsHist Tree.FilesProofsTop Tree.FilesProofsExact2 Tree.FilesProofsOwned Tree.FilesProofsText Tree.FilesProofsLoad Tree.FilesProofsOp2
-  Tree.FilesLoad Tree.FilesProofsMerge Tree.FilesProofsBridge Tree.FilesProofsLoad2 Tree.FilesProofsLoad3 Tree.FilesProofsLoad4 Tree.FilesProofsLoad5 Tree.FilesProofsOp2b.
-From AV Require Tree.InvLoad Tree.Load Tree.MergeSpec Tree.MergePure Tree.MergePureProofs Tree.LoadRefineBase Tree.LoadRefinePure Tree.LoadRefineMain Tree.LoadRefineTop.
+  Tree.FilesLoad Tree.FilesProofsMerge Tree.FilesProofsBridge Tree.FilesProofsLoad2 Tree.FilesProofsLoad3 Tree.FilesProofsLoad4 Tree.FilesProofsLoad5 Tree.FilesProofsOp2b Tree.FilesProofsDup Tree.FilesProofsDup2 Tree.FilesProofsDup3.
+From AV Require Tree.CopyProofsDefs Tree.InvLoad Tree.Load Tree.MergeSpec Tree.MergePure Tree.MergePureProofs Tree.LoadRefineBase Tree.LoadRefinePure Tree.LoadRefineMain Tree.LoadRefineTop.
 From AV Require Import Tree.Script2.
 From AV Require Tree.Index Tree.Copy Xml.Parser Xml.Serializer Xml.RoundTripFile.
 Open Scope list_scope.
@@ -587,6 +587,58 @@ Theorem C10_duplicate_partial :
   firstn (List.length (w_models w)) (w_models w') = w_models w /\
   forall x, In x (w_models w) -> FilesInvM T w' x.
 Proof. exact duplicate_partial. Qed.
+
+(* ---------- the COPY made by AutosarModel::duplicate ----------
+   the membership phase (zip of the two pre-order walks, local set := the original's local set translated through the
+   file map) carries FilesInvW from the original to the copy, in a world in which the two roots are equal up to node
+   ids (agent-c13's Iso: what the construction phase gives when nothing is filtered out) and the file map sends every
+   file of the original to a file of the copy; statement in the shape of C13's duplicate_tail_text *)
+Theorem C10_duplicate_membership :
+  forall (fm : list (list N * N)) (root croot : id) (w4 : world) (r : unit) (w' : world) (F F' : list N),
+  Core w4 -> Core w' ->
+  (forall g, In g F -> exists gl ng, nth_opt (w_files w4) (N.to_nat g) = Some gl /\ assoc_get (f_name gl) fm = Some ng /\ In ng F') ->
+  FilesInvW w4 (mkModel root F [] []) -> F <> [] ->
+  (forall n p, w_nodes w4 root = Some n -> n_parent n <> PElem p) ->
+  (forall n p, w_nodes w4 croot = Some n -> n_parent n <> PElem p) ->
+  CopyProofsDefs.Iso w4 w4 root croot ->
+  (forall x y, CopyProofsDefs.Sub w4 root x -> CopyProofsDefs.Sub w4 croot y -> x <> y) ->
+  (forall l, dfs_ids (fuel_of w4) croot w4 = Val (OK l, w4) -> NoDup l) ->
+  (do w <- wget; do oids <- dfs_ids (fuel_of w) root; do cids <- dfs_ids (fuel_of w) croot;
+   Copy.dup_membership fm oids cids)%W w4 = Val (OK r, w') ->
+  FilesInvW w' (mkModel croot F' [] []).
+Proof. exact duplicate_tail_filesinv. Qed.
+
+(* the file map built by the first loop sends every file of the original (by name) to a file of the copy *)
+Theorem C10_duplicate_file_map :
+  forall (T : tables) (c : N) (files : list N) (fm : list (list N * N)) (w : world) (fm' : list (list N * N)) (w' : world),
+  (forall g, In g files -> exists gl, nth_opt (w_files w) (N.to_nat g) = Some gl) ->
+  Copy.dup_files T c files fm w = Val (OK fm', w') ->
+  (forall g fl, nth_opt (w_files w) (N.to_nat g) = Some fl -> nth_opt (w_files w') (N.to_nat g) = Some fl) /\
+  incl (MFc w c) (MFc w' c) /\
+  (forall k v, assoc_get k fm = Some v -> exists v', assoc_get k fm' = Some v') /\
+  (forall k v, assoc_get k fm' = Some v -> assoc_get k fm = Some v \/ In v (MFc w' c)) /\
+  (forall g, In g files -> exists gl v, nth_opt (w_files w) (N.to_nat g) = Some gl /\ assoc_get (f_name gl) fm' = Some v).
+Proof. exact dup_files_map. Qed.
+
+(* the public call, in the scope of C13_duplicate_text (the root has one sub-element, of a type that is not named, valid
+   in every file version of the result: nothing is filtered out) but for SPLIT models: the copy satisfies FilesInvW.
+   Outside: C13-dup-version-filter (something is filtered out: the walks are not aligned, witness C13_duplicate_refuted)
+   and C13-dup-foreign-membership (a local set names a file of another model: excluded here by FilesInvW (a)). *)
+Theorem C10_duplicate_copy :
+  forall (T : tables) (tab_el tab_en : nametab) (check_fn : N -> list N -> res bool) (LATEST : N)
+         (root_attrs : list (N * cdata)) (m : N) (w : world) (c : N) (w' : world) (x : model) (rn : node) (e : id) (ed : elemdef),
+  Core w ->
+  Copy.m_duplicate T tab_el tab_en check_fn LATEST root_attrs m w = Val (OK c, w') ->
+  nth_opt (w_models w) (N.to_nat m) = Some x -> w_nodes w (m_root x) = Some rn ->
+  et_new T (autosar_element T) = Val (n_type rn) -> elem T (autosar_element T) = Val ed -> ed_name ed = n_name rn ->
+  n_content rn = [CElem e] ->
+  (forall en, w_nodes w e = Some en -> is_named T (n_type en) = Val false) ->
+  (forall v, (v = LATEST \/ exists f fl, nth_opt (w_files w') (N.to_nat f) = Some fl /\ f_version fl = v) ->
+             CopyProofsDefs.AllValidIn T v w e) ->
+  FilesInvW w x -> m_files x <> [] ->
+  (forall g, In g (m_files x) -> exists gl, nth_opt (w_files w) (N.to_nat g) = Some gl) ->
+  exists xc, nth_opt (w_models w') (N.to_nat c) = Some xc /\ m_root xc = w_next w /\ FilesInvW w' xc.
+Proof. exact duplicate_filesinv_top. Qed.
 
 Theorem C10_self_contained :
   forall (T : tables) (Loads : world -> option N -> id -> Prop),
